@@ -82,7 +82,7 @@ def retry_run(sc, rs, tier, seed):
 DL_RUN = {"harness": "hdeadline", "driver": "dldrv", "corpus": "deadline", "fields": ["st", "post", "overdue", "rt", "wt", "bl"], "custom": retry_run,
           "quick": {"n": 40, "shards": 12}, "thorough": {"n": 96, "shards": 24}}
 
-STOP_RUN = {"harness": "hstop", "driver": "stopdrv", "corpus": "stopsim", "fields": ["stop", "opens", "closes"] + ["c%d" % i for i in range(64)],
+STOP_RUN = {"harness": "hstop", "driver": "stopdrv", "corpus": "stopsim", "fields": ["stop", "opens", "closes", "qa", "qb", "online", "ha", "hb", "wa", "wb", "got", "ra", "rb"] + ["c%d" % i for i in range(64)],
             "custom": retry_run, "quick": {"n": 30, "shards": 12}, "thorough": {"n": 120, "shards": 24}}
 
 WSCB_RUN = {"harness": "hwscb", "driver": "wscbdrv", "corpus": "wscb", "fields": ["log", "run", "ret", "sent", "wire", "ql", "rets", "groups", "whole"],
@@ -137,7 +137,17 @@ PROPS = {
                     "step decreases a measure, Stop is never stuck unless a registration raced the snapshot "
                     "(c18_stop_progress_partial; full strength refuted by c18_stop_progress_counterexample = defect #11); tied to "
                     "the code by gated scenarios on real engines compared state by state with the model, plus real-socket "
-                    "Stop/Shutdown runs under a watchdog with close-count, goroutine and descriptor census",
+                    "Stop/Shutdown runs under a watchdog with close-count, goroutine and descriptor census. HTTP engine "
+                    "(Model/HttpStop): engine.conns bookkeeping over every interleaving of add paths (non-blocking, blocking, "
+                    "transferred), closes, close jobs, closeAllConns, Stop and Shutdown's polling loop: in the map iff inserted "
+                    "once and not deleted, every exit path deletes exactly once (transferred => deleted), per-conn progress + "
+                    "rank, Stop's statement order, executor stopped only after every registered conn's close job was submitted, "
+                    "Shutdown returns nil iff the map drains, wgConn count held only by open registered conns (repaired tree; "
+                    "pinned counterexamples for the closeAllConns/AddConn race and the late accept). lmux (Model/Lmux): every "
+                    "accepted conn in exactly one place, A budget, Stop hands out or closes everything and unblocks every "
+                    "goroutine (pinned counterexample: queued conns stranded). Tied to the code by forced schedules on a real "
+                    "nbhttp engine (gated OnOpen, gated listener) and a real ListenerMux with loopback conns, compared with the "
+                    "models after every op",
             "note": "proof on the model, partial: termination is proved in safety form (progress + measure) under fair scheduling "
                     "and only without registrations racing the snapshot (known finding C18-onopen-outlives-snapshot); release of "
                     "poller/listener/executor goroutines and of descriptors is measured (one-sided census with settle time), "
@@ -145,15 +155,22 @@ PROPS = {
                     "notifications are not required at Stop return",
             "technique": "Lean 4 proof (two invariants + termination measure over a transition system) + differential "
                          "correspondence with gated callbacks + real-engine runs under a watchdog"},
-        "lean": ["NbioVerif.Properties.C18"], "drivers": ["stopdrv"], "harness": ["hstop"], "cs": cs_stop.C18_CS,
+        "lean": ["NbioVerif.Properties.C18", "NbioVerif.Properties.C18Http"], "drivers": ["stopdrv"], "harness": ["hstop"], "cs": cs_stop.C18_CS,
         "runs": [STOP_RUN],
         "oracles": ["c18-"],
         "rule": "sim case = op sequence (add, gated new/release, close, eof, hold/release of the close callback, stop) on a "
                 "real engine with virtual descriptors, compared with the model after every op; real case = engine config "
                 "(core/http, epoll mode, I/O mode, pollers, listeners) x activity mix (accepts, dials, backlogs, timers, "
                 "concurrent closers) x stop|shutdown; distinct by hash of (config, op sequence, final state); non-trivial iff "
-                ">= 1 conn existed",
+                ">= 1 conn existed; lmux case = maxOnlineA x op sequence (dial, takeA/B with blocked consumers, dec, stop) on a "
+                "real ListenerMux; hsim case = nbhttp I/O mode x forced schedule (conn gated inside OnOpen, release, peer close, "
+                "conn accepted after the shutdown flag, stop|shutdown, wait)",
         "assumptions": ["the Async queue is used through its specification (FIFO, exactly once: JobQ instance, C05/C19)",
+                        "HttpStop: closeAllConns is one atomic step (whole loop under engine.mux; its single Close calls touch "
+                        "only their own conn and commute with other conns' steps); the executor pool is not saturated (a job "
+                        "submitted before onStop runs); lmux: the 65536-slot event channels do not fill up",
+                        "hsim / lmux results are read after a settle time (state unchanged for 60 ms, 650 ms while a Shutdown is "
+                        "polling): a slower machine only makes the case slower",
                         "user handlers closing the conn inside OnOpen are outside the model (lifecycle, C03)",
                         "goroutine/descriptor release: runtime facts, measured with a settle time of up to 5 s",
                         "fair scheduling of the engine's own goroutines (acceptor continuation, Async drainer, pollers)",
